@@ -213,4 +213,28 @@ theorem C03_cex_same_file_stem :
     Path.specGood false ["w".toList] ["w".toList, "a.ts".toList] "./a".toList = true ∧
     Path.isSameFile "/w/a.ts.ts".toList "./a".toList = true := by decide
 
+
+/-- **The same with ES-module imports** (`import-esm`): the specifier is `s'.js` and the test strips `.js`
+repeatedly, so `s'` must not itself end in `.js` — for `import_path`'s result: the target's stem does not. -/
+theorem C03_same_file_only_self_esm (fd A : List Str) (frm spec s' ff : Str)
+    (hfn : Path.fileName frm = some (ff ++ Path.dotTs))
+    (hffs : '/' ∉ ff) (hts : Text.endsWith Path.dotTs ff = false)
+    (hs : spec = s' ++ Path.dotJs) (hs' : Text.endsWith Path.dotJs s' = false)
+    (hgood : Path.specGood true fd A spec = true)
+    (hsame : Path.isSameFile frm spec = true) :
+    A = fd ++ [ff ++ Path.dotTs] :=
+  Path.same_file_only_self_esm fd A frm spec s' ff hfn hffs hts hs hs' hgood hsame
+
+/-- non-vacuity of the ES-module statement -/
+example : Path.specGood true ["w".toList] ["w".toList, "A.ts".toList] "./A.js".toList = true ∧
+    Path.isSameFile "/w/A.ts".toList "./A.js".toList = true ∧
+    Text.endsWith Path.dotJs "./A".toList = false := by decide
+
+/-- its extra condition is necessary: with ES-module imports `a.ts` imports from its sibling `a.js.ts`
+through `./a.js.js` — which C08 accepts and which resolves — and `is_same_file` drops it. -/
+theorem C03_cex_same_file_stem_esm :
+    Path.importPath true "/w".toList "/w/a.ts".toList "/w/a.js.ts".toList = some (.ok "./a.js.js".toList) ∧
+    Path.specGood true ["w".toList] ["w".toList, "a.js.ts".toList] "./a.js.js".toList = true ∧
+    Path.isSameFile "/w/a.ts".toList "./a.js.js".toList = true := by decide
+
 end TsRs
